@@ -22,6 +22,15 @@ on a fresh Trimesh(process=False) (optionally with its cache warmed first), proj
 before and after to integers (result coordinates over a common power-of-two denominator, exact)
 and has TLC validate every record in batch.  Python computes no expected value.
 
+Audit extension (coverage of the quantified domain): larger and higher-genus surfaces (refined cube,
+polycube rings of genus 1 and 2, three bodies, a body nested in another), unreferenced vertices, histories
+before fix_normals (reads, invert(), a first fix_normals()), any number of removed faces for fill_holes (only
+3- and 4-cycles have to be closed), face colours / a second call, the composite fill_holes() -> fix_normals()
+on a mesh with faces removed AND re-wound, every container / dtype form of face_index, faces and vertices
+for subdivide, texture and vertex-attribute carrying meshes, return_index, a second round on the REAL result
+of the first, the function entry points / dtypes / uv path / presentations of subdivide_to_size, loop
+subdivision with unreferenced vertices and three bodies, and mesh.triangles as an observation point.
+
 Known finding FillHolesQuadDiagonalIsExistingEdge: records rejected by a fill_holes clause for which
 Repair.tla's input-only predicate QuadDiagonalIsExistingEdge holds are attributed to it.
 """
@@ -49,7 +58,14 @@ INT_LIMIT = 2 ** 31 - 1
 # scratch directory under /verif/.work (a suffix lets several runs, e.g. of mutants, coexist)
 WORKNAME = "c18" + os.environ.get("VERIF_C18_WORK_SUFFIX", "")
 # tag printed by Repair.tla Deviation(c) -> id of the known finding (known_findings.jsonl)
-DEVIATIONS = {"QDE": "FillHolesQuadDiagonalIsExistingEdge"}
+DEVIATIONS = {"QDE": "FillHolesQuadDiagonalIsExistingEdge",
+              # findings of the coverage audit (input-only predicates in Repair.tla); not listed as known
+              # findings, so observations attributed to them are VIOLATIONs until they are repaired / listed
+              "QSA": "FillHolesQuadStraightAngle",
+              "SFT": "SubdivideFaceIndexTuple",
+              "SU64": "SubdivideUnsigned64Faces",
+              "SVA1": "SubdivideFlatVertexAttribute",
+              "LUV": "SubdivideLoopUnreferencedVertex"}
 ROUND = 40000              # records recorded and validated per round (bounded memory)
 REPORT_CAP = 60            # V.violation calls per (clause, deviation); the full counts are in the evidence
 
@@ -82,6 +98,25 @@ def join(parts):
         v += [list(p) for p in pv]
         f += [[a + n, b + n, c + n] for a, b, c in pf]
     return v, f
+
+
+def refined(v, f):
+    """A finer input surface: every face cut in four through one shared point per edge."""
+    v = [list(p) for p in v]
+    mid = {}
+
+    def m(a, b):
+        key = (min(a, b), max(a, b))
+        if key not in mid:
+            mid[key] = len(v)
+            v.append([(v[a][j] + v[b][j]) // 2 for j in range(3)])
+        return mid[key]
+
+    out = []
+    for a, b, c in f:
+        ab, bc, ca = m(a, b), m(b, c), m(c, a)
+        out += [[a, ab, ca], [ab, b, bc], [ca, bc, c], [ab, bc, ca]]
+    return v, out
 
 
 def library():
@@ -122,7 +157,27 @@ def library():
     csoup_v, csoup_f = soup(cube_v, outward(cube_v, cube_f))
     cube_shift = [[x + 8, y + 8, z] for x, y, z in cube_v]
     two_v, two_f = join([(tet_v, outward(tet_v, tet_f)), (cube_shift, outward(cube_shift, cube_f))])
+    # ---- audit surfaces
+    # a tetrahedron one edge of which carries an extra vertex (4 on the edge 0-1): removing the two faces on
+    # either side of the edge 2-4 (or 3-4) leaves a quad hole with a straight angle at vertex 4
+    esplit_v = [[0, 0, 0], [8, 0, 0], [0, 8, 0], [0, 0, 8], [4, 0, 0]]
+    esplit_f = [[0, 2, 4], [4, 2, 1], [0, 4, 3], [4, 1, 3], [1, 2, 3], [0, 3, 2]]
+    oct_far = [[x, y + 20, z] for x, y, z in oct_v]
+    tet_far = [[x + 20, y, z] for x, y, z in tet_v]
+    three_v, three_f = join([(cube_v, outward(cube_v, cube_f)), (tet_far, outward(tet_far, tet_f)),
+                             (oct_far, outward(oct_far, oct_f))])
+    cube_big = [[3 * x - 4, 3 * y - 4, 3 * z - 4] for x, y, z in cube_v]
+    nest_v, nest_f = join([(cube_v, outward(cube_v, cube_f)), (cube_big, outward(cube_big, cube_f))])
+    cref_v, cref_f = refined(cube_v, outward(cube_v, cube_f))
+    ring_v, ring_f = polycube([(x, y, 0) for x in range(3) for y in range(3) if (x, y) != (1, 1)])
+    ring2_v, ring2_f = polycube([(x, y, 0) for x in range(5) for y in range(3) if (x, y) not in ((1, 1), (3, 1))])
     return {
+        "edge_split_tetrahedron": (esplit_v, outward(esplit_v, esplit_f), True),
+        "three_bodies": (three_v, three_f, True),
+        "nested_cubes": (nest_v, nest_f, True),
+        "cube_refined": (cref_v, cref_f, True),
+        "ring_genus1": (ring_v, ring_f, True),
+        "double_ring_genus2": (ring2_v, ring2_f, True),
         "tetrahedron": (tet_v, outward(tet_v, tet_f), True),
         "skew_tetrahedron": (skew_v, outward(skew_v, tet_f), True),
         "pythagorean_tetrahedron": (pyth_v, outward(pyth_v, tet_f), True),
@@ -139,9 +194,50 @@ def library():
     }
 
 
+def polycube(cells):
+    """Boundary surface of a union of lattice cubes of side 4 (cells: integer triples): one quad, wound
+    outwards, per cube face that is not shared; manifold when no two cells touch along an edge or corner only."""
+    cells = set(cells)
+    vid, V, Q = {}, [], []
+
+    def vi(p):
+        if p not in vid:
+            vid[p] = len(V)
+            V.append([4 * p[0], 4 * p[1], 4 * p[2]])
+        return vid[p]
+
+    for cell in sorted(cells):
+        for ax in range(3):
+            for sg in (1, -1):
+                nb = list(cell)
+                nb[ax] += sg
+                if tuple(nb) in cells:
+                    continue
+                o = list(cell)
+                if sg == 1:
+                    o[ax] += 1
+                a1, a2 = [a for a in range(3) if a != ax]
+                c = []
+                for d1, d2 in ((0, 0), (1, 0), (1, 1), (0, 1)):
+                    q = list(o)
+                    q[a1] += d1
+                    q[a2] += d2
+                    c.append(vi(tuple(q)))
+                if (ax == 1) != (sg == -1):
+                    c = c[::-1]
+                Q.append(c)
+    return V, quads(Q)
+
+
 LIB = library()
 COINCIDENT = ("boxes_face_to_face", "tetrahedron_soup", "cube_soup")      # only handed to subdivide
-SURFACES = tuple(n for n in LIB if n not in COINCIDENT)
+# surfaces of the audit families: not part of the per-surface loops over the whole library
+AUDIT_ONLY = ("edge_split_tetrahedron", "three_bodies", "nested_cubes", "cube_refined", "ring_genus1",
+              "double_ring_genus2")
+BASE = tuple(n for n in LIB if n not in AUDIT_ONLY)
+SURFACES = tuple(n for n in BASE if n not in COINCIDENT)
+# two unreferenced vertices (distinct even lattice points away from every surface): one first, one last
+UNREF = ([-36, -40, -44], [52, 48, 44])
 # histories before fill_holes: what is read (and so cached) before invert(); 0 = no history
 HISTORIES = {1: "invert", 2: "warm_up+invert", 3: "edges+invert", 4: "is_watertight+invert",
              5: "face_normals+edges_sorted+invert"}
@@ -165,25 +261,6 @@ def present(name, pres):
         f = [t[r:] + t[:r] for t, r in zip(f, rs.randint(3, size=len(f)))]
         f = [f[j] for j in rs.permutation(len(f))]
     return v, f, closed
-
-
-def refined(v, f):
-    """A finer input surface: every face cut in four through one shared point per edge."""
-    v = [list(p) for p in v]
-    mid = {}
-
-    def m(a, b):
-        key = (min(a, b), max(a, b))
-        if key not in mid:
-            mid[key] = len(v)
-            v.append([(v[a][j] + v[b][j]) // 2 for j in range(3)])
-        return mid[key]
-
-    out = []
-    for a, b, c in f:
-        ab, bc, ca = m(a, b), m(b, c), m(c, a)
-        out += [[a, ab, ca], [ab, b, bc], [ca, bc, c], [ab, bc, ca]]
-    return v, out
 
 
 def rewound(t, style):
@@ -219,13 +296,23 @@ def face_rows(F):
     return F.astype(np.int64).tolist()
 
 
-NOREP = {"has": False, "wt": False, "wc": False, "eul": 0, "vol6": 0, "vol6ok": False, "novol": False, "nrm": []}
+NOREP = {"has": False, "wt": False, "wc": False, "eul": 0, "vol6": 0, "vol6ok": False, "novol": False, "nrm": [],
+         "tri": []}
+TRI_CAP = 260              # mesh.triangles is recorded for results of at most this many faces
 
 
-def reported(m, den, normals):
+def reported(m, den, normals, tri=True):
     """What the result object reports about itself (the observation points of the property)."""
     r = {"has": True, "wt": bool(m.is_watertight), "wc": bool(m.is_winding_consistent),
-         "eul": int(m.euler_number), "vol6": 0, "vol6ok": False, "novol": False, "nrm": []}
+         "eul": int(m.euler_number), "vol6": 0, "vol6ok": False, "novol": False, "nrm": [], "tri": []}
+    if tri and 0 < len(m.faces) <= TRI_CAP:
+        T = np.asarray(m.triangles, dtype=np.float64)
+        B = T * den
+        if T.shape == (len(m.faces), 3, 3) and np.isfinite(B).all() and np.all(B == np.round(B)) \
+                and np.abs(B).max() < 2 ** 20:
+            r["tri"] = B.astype(np.int64).tolist()
+        else:           # not on the lattice of the result vertices: cannot be the triangles of the result
+            r["tri"] = [[[0, 0, 0]] * 3]
     x = float(m.volume) * 6.0 * den ** 3
     if np.isfinite(x) and abs(x - round(x)) <= 1e-9 * max(1.0, abs(x)) and abs(x) < INT_LIMIT:
         r["vol6"], r["vol6ok"] = int(round(x)), True
@@ -236,6 +323,31 @@ def reported(m, den, normals):
         else:
             r["nrm"] = [[0, 0, 0]] * max(1, len(m.faces))
     return r
+
+
+def with_unref(v, f):
+    """The same surface with two unreferenced vertices, one before and one after the others."""
+    return [list(UNREF[0])] + [list(p) for p in v] + [list(UNREF[1])], [[x + 1 for x in t] for t in f]
+
+
+def proper_mesh(V, F):
+    """Structural hypothesis of a pre-mesh (input selection only; Repair.tla InputSane checks it again):
+    indices in range, even integer coordinates, no degenerate face, no edge used more than twice."""
+    V = np.asarray(V)
+    F = np.asarray(F)
+    if V.ndim != 2 or V.shape[1] != 3 or F.ndim != 2 or F.shape[1] != 3 or len(F) == 0 or F.dtype.kind not in "iu":
+        return False
+    if F.min() < 0 or F.max() >= len(V) or not np.all(V == np.round(V)) or np.any(np.round(V).astype(np.int64) % 2):
+        return False
+    T = V[F]
+    if not np.cross(T[:, 1] - T[:, 0], T[:, 2] - T[:, 0]).any(axis=1).all():
+        return False
+    cnt = {}
+    for t in F.tolist():
+        for j in range(3):
+            e = (min(t[j], t[(j + 1) % 3]), max(t[j], t[(j + 1) % 3]))
+            cnt[e] = cnt.get(e, 0) + 1
+    return max(cnt.values()) <= 2
 
 
 def warm_up(m):
@@ -291,6 +403,9 @@ def observe(trimesh, it):
         if s is None:
             rec["off"] = "vertices"
             return False
+        if np.size(faces) and np.asarray(faces).dtype.kind not in "iu":
+            rec["off"] = "faces_not_integers"
+            return False
         rec["den"], rec["v1"] = s
         rec["f1"] = face_rows(faces)
         return True
@@ -310,9 +425,38 @@ def observe(trimesh, it):
                 vs[sorted({x for kf in body for x in f[kf]})] = 2.0 ** k2
                 V = V / vs[:, None]
                 rec["tiny_k"] = k2
-            m = fresh(f0)
+            fh = it.get("fh", "")
+            rec["fh"], rec["pre_ok"] = fh, True
+            if it.get("unref"):
+                # two unreferenced vertices: nothing may move, and they take no part in any body
+                v, f0 = with_unref(v, f0)
+                rec["fb"] = with_unref([], rec["fb"])[1]
+                rec["v0"], rec["f0"] = v, f0
+                V = np.array(v, dtype=np.float64)
+            if fh in ("invert", "normals+invert", "warm_up+invert"):
+                # history: the mesh is built inside out, (reads), invert(): the judged pre-mesh is f0
+                m = fresh([t[::-1] for t in f0])
+                if fh == "normals+invert":
+                    m.vertex_normals
+                    m.face_normals
+                    m.triangles
+                elif fh == "warm_up+invert":
+                    warm_up(m)
+                m.invert()
+            else:
+                m = fresh(f0)
             if it["warm"]:
                 warm_up(m)
+            if fh == "fix_first":
+                # a first fix_normals(): the judged pre-mesh is its result (same triangles, possibly re-wound)
+                m.fix_normals()
+                mid = face_rows(m.faces)
+                if sorted(map(sorted, mid)) != sorted(map(sorted, f0)):
+                    return {"id": it["id"], "op": op, "name": name, "skipped": 0, "item": it}
+                rec["f0"] = f0 = mid
+            if fh:
+                rec["pre_ok"] = bool(face_rows(m.faces) == [list(t) for t in f0]
+                                     and np.asarray(m.vertices).tolist() == V.tolist())
             api = it["api"]
             if api == "fix_normals_auto":
                 m.fix_normals()
@@ -332,7 +476,7 @@ def observe(trimesh, it):
             if k2 and out_v.shape == V.shape:
                 out_v = out_v * vs[:, None]
             if put_result(out_v, m.faces):
-                rec["rep"] = reported(m, rec["den"], normals=True)
+                rec["rep"] = reported(m, rec["den"], normals=True, tri=not k2)
                 rec["rep"]["novol"] = bool(k2)
         elif op == "fill":
             rec["fb"] = f
@@ -340,7 +484,16 @@ def observe(trimesh, it):
             f0 = [list(t) for k, t in enumerate(f) if k not in removed]
             rec["f0"], rec["removed"], rec["ret"] = f0, removed, False
             rec["sgn"], rec["pre_ok"], rec["hist"] = 1, True, HISTORIES.get(it.get("hist", 0), "")
+            cfg = rec["cfg"] = it.get("cfg", "")
+            if cfg == "unref":
+                v, f0 = with_unref(v, f0)
+                f = with_unref([], f)[1]
+                rec["v0"], rec["f0"], rec["fb"] = v, f0, f
+                V = np.array(v, dtype=np.float64)
             m = fresh(f0)
+            if cfg == "facecolor":
+                # face colours: the branch of fill_holes that extends the colour array with the new faces
+                m.visual.face_colors = (np.arange(4 * len(f0)).reshape((-1, 4)) * 7 % 256).astype(np.uint8)
             if it["warm"]:
                 warm_up(m)
             hist = it.get("hist", 0)
@@ -363,9 +516,26 @@ def observe(trimesh, it):
                 rec["pre_ok"] = bool(np.asarray(m.faces).tolist() == rec["f0"]
                                      and np.asarray(m.vertices).tolist() == V.tolist())
             ret = m.fill_holes()
+            if cfg == "twice":
+                ret = m.fill_holes()            # a second call: judged like the first, against the same pre-mesh
             if not isinstance(ret, (bool, np.bool_)):
                 rec["off"] = "return_value"
             rec["ret"] = bool(ret)
+            if put_result(m.vertices, m.faces):
+                rec["rep"] = reported(m, rec["den"], normals=True)
+        elif op == "fillfix":
+            # faces removed AND survivors re-wound; fill_holes() then fix_normals()
+            rec["fb"] = f
+            removed = sorted(it["removed"])
+            rest = [list(t) for k, t in enumerate(f) if k not in removed]
+            flips = set(it["flips"])
+            f0 = [rewound(t, it["style"] + k) if k in flips else t for k, t in enumerate(rest)]
+            rec["f0"], rec["removed"], rec["flips"] = f0, removed, sorted(flips)
+            m = fresh(f0)
+            if it["warm"]:
+                warm_up(m)
+            m.fill_holes()
+            m.fix_normals()
             if put_result(m.vertices, m.faces):
                 rec["rep"] = reported(m, rec["den"], normals=True)
         elif op == "subdivide":
@@ -374,46 +544,136 @@ def observe(trimesh, it):
             sel = it["sel"]
             for _ in range(it["depth"] - 1):
                 v, f = refined(v, f)
+            form, fdt, vdt, cfg = it.get("form", ""), it.get("fdt", ""), it.get("vdt", ""), it.get("cfg", "")
+            rec.update({"form": form, "fdt": fdt, "vdt": vdt, "cfg": cfg, "pre_ok": True, "ri": False, "ridx": []})
+            if cfg == "unref":
+                v, f = with_unref(v, f)
             V = np.array(v, dtype=np.float64)
             rec["v0"], rec["f0"] = v, f
             m = fresh(f)
+            if cfg == "chain":
+                # second round on the REAL result of a first round of all faces (a mesh object built by
+                # subdivide itself); that result is the recorded pre-mesh when it is a proper mesh
+                m = m.subdivide()
+                s1 = snap(m.vertices)
+                if s1 is None or s1[0] != 1 or not proper_mesh(m.vertices, m.faces):
+                    rec["pre_ok"] = False
+                    rec["sel"], rec["api"] = [], it["api"]
+                    return rec
+                v, f = s1[1], face_rows(m.faces)
+                V = np.array(v, dtype=np.float64)
+                rec["v0"], rec["f0"] = v, f
+                if sel != "all_none":
+                    sel = [x for x in range(len(f)) if (x * 7 + it["id"]) % 5 < 2]
+            nf = len(f)
             if sel == "all_none":
-                rec["sel"], arg = list(range(len(m.faces))), None
+                rec["sel"], arg = list(range(nf)), None
             else:
-                rec["sel"] = sorted(sel)
-                arg = np.array(sel, dtype=np.int64) if it["id"] % 2 else [int(x) for x in sel]
+                sel = sorted(int(x) for x in sel)
+                rec["sel"] = sel
+                rsf = np.random.RandomState((seed() * 31 + it["id"]) % (2 ** 31))
+                if form == "":
+                    arg = np.array(sel, dtype=np.int64) if it["id"] % 2 else list(sel)
+                elif form == "bool":
+                    arg = np.zeros(nf, dtype=bool)
+                    arg[sel] = True
+                elif form == "boollist":
+                    arg = [k in set(sel) for k in range(nf)]
+                elif form == "unsorted":
+                    arg = np.array(sel, dtype=np.int64)[::-1] if it["id"] % 2 else [sel[j] for j in rsf.permutation(len(sel))]
+                elif form == "repeated":
+                    arg = np.array(sel + sel[:2] + sel[-1:], dtype=np.int64)
+                elif form in ("int32", "uint8", "uint64", "int16"):
+                    arg = np.array(sel, dtype=form)
+                elif form == "tuple":
+                    arg = tuple(sel)
+                elif form == "negative":
+                    arg = np.array([x - nf for x in sel], dtype=np.int64)
+                else:
+                    raise MachineryError("form " + form)
             rec["api"] = it["api"]
             if it["api"] == "mesh":
+                if cfg == "uv":
+                    # texture coordinates: the branch that subdivides vertices and uv stacked side by side
+                    uv = (np.arange(2 * len(V)).reshape((-1, 2)) % 16) / 16.0
+                    m.visual = trimesh.visual.TextureVisuals(uv=uv)
+                elif cfg == "vattr2d":
+                    m.vertex_attributes["a"] = np.arange(2.0 * len(V)).reshape((-1, 2))
+                elif cfg == "vattr1d":
+                    m.vertex_attributes["quality"] = np.arange(1.0 * len(V))
                 if it["warm"]:
                     warm_up(m)
                 out = m.subdivide(face_index=arg)
                 if put_result(out.vertices, out.faces):
                     rec["rep"] = reported(out, rec["den"], normals=False)
             else:
-                res = remesh.subdivide(np.asarray(m.vertices).copy(), np.asarray(m.faces).copy(), face_index=arg)
+                va = np.asarray(m.vertices).copy()
+                fa = np.asarray(m.faces).copy()
+                if vdt:
+                    va = va.astype(vdt)             # lattice coordinates: exact in float32 and in integers
+                if fdt:
+                    fa = fa.astype(fdt)
+                if it.get("ri"):
+                    res = remesh.subdivide(va, fa, face_index=arg, return_index=True)
+                    rec["ri"] = True
+                    rows = [[int(k)] + [int(x) for x in np.asarray(ch).ravel()] for k, ch in res[2].items()]
+                    rec["ridx"] = sorted(rows)
+                else:
+                    res = remesh.subdivide(va, fa, face_index=arg)
                 put_result(res[0], res[1])
         elif op == "tosize":
             m = fresh(f)
+            entry = it.get("entry", "mesh")
             rec.update({"me_n": it["me_n"], "me_d": it["me_d"], "max_iter": it["max_iter"], "ri": bool(it["ri"]),
-                        "idx": [], "refused": False})
+                        "idx": [], "refused": False, "entry": entry})
+            me = it["me_n"] / it["me_d"]
+            if it["me_d"] == 1 and it.get("me_int"):
+                me = [int(it["me_n"]), np.int64(it["me_n"]), np.float32(it["me_n"])][it["me_int"] - 1]
+            kw = dict(max_edge=me, max_iter=it["max_iter"], return_index=bool(it["ri"]))
             try:
-                out = m.subdivide_to_size(max_edge=it["me_n"] / it["me_d"], max_iter=it["max_iter"],
-                                          return_index=bool(it["ri"]))
+                if entry == "mesh":
+                    out = m.subdivide_to_size(**kw)
+                elif entry == "mesh_uv":
+                    m.visual = trimesh.visual.TextureVisuals(uv=(np.arange(2 * len(V)).reshape((-1, 2)) % 16) / 16.0)
+                    out = m.subdivide_to_size(**kw)
+                else:
+                    # the function entry point, with the containers / dtypes a caller may hold
+                    va, fa = np.asarray(m.vertices).copy(), np.asarray(m.faces).copy()
+                    if entry == "func_lists":
+                        va, fa = va.tolist(), fa.tolist()
+                    elif entry == "func_f32_i32":
+                        va, fa = va.astype(np.float32), fa.astype(np.int32)
+                    elif entry == "func_intverts_u32":
+                        va, fa = va.astype(np.int64), fa.astype(np.uint32)
+                    elif entry != "func":
+                        raise MachineryError("entry " + entry)
+                    out = remesh.subdivide_to_size(va, fa, **kw)
             except ValueError as e:
                 if "max_iter exceeded" not in str(e):
                     raise
                 rec["refused"] = True
                 out = None
             if out is not None:
+                if entry.startswith("mesh"):
+                    if it["ri"]:
+                        out, idx = out
+                    ov, of = out.vertices, out.faces
+                else:
+                    ov, of = np.asarray(out[0])[:, :3], out[1]
+                    if it["ri"]:
+                        idx = out[2]
                 if it["ri"]:
-                    out, idx = out
                     idx = np.asarray(idx)
                     if idx.dtype.kind not in "iu" or idx.ndim != 1:
                         rec["off"] = "index"
                     else:
                         rec["idx"] = idx.astype(np.int64).tolist()
-                put_result(out.vertices, out.faces)
+                put_result(ov, of)
         elif op == "loop":
+            if it.get("cfg") == "unref":
+                v, f = with_unref(v, f)
+                V = np.array(v, dtype=np.float64)
+                rec["v0"], rec["f0"] = v, f
             m = fresh(f)
             out = m.subdivide_loop(iterations=it["iterations"])
             rec["iterations"] = it["iterations"]
@@ -562,7 +822,8 @@ def work_items(tier):
                 api=("fix_normals_auto", "fix_normals_multibody")[k % 2], warm=(k // 2) % 2)
 
     # ---- hole filling after a history: (reads that fill the cache) -> invert() -> fill_holes()
-    for name in ("skew_tetrahedron", "octahedron", "cube", "tet_and_cube", "torus3x3", "sheet4x4"):
+    for name in ("skew_tetrahedron", "octahedron", "cube", "tet_and_cube", "torus3x3", "sheet4x4",
+                 "edge_split_tetrahedron"):
         for pres in range(3 if big else 1):
             v, f, closed = present(name, pres)
             k = 0
@@ -572,7 +833,8 @@ def work_items(tier):
                     k += 1
 
     # ---- hole filling: every single face, every adjacent pair (quad hole); thorough: every pair
-    for name in ("tetrahedron", "skew_tetrahedron", "octahedron", "cube", "tet_and_cube", "torus3x3", "sheet4x4"):
+    for name in ("tetrahedron", "skew_tetrahedron", "octahedron", "cube", "tet_and_cube", "torus3x3", "sheet4x4",
+                 "edge_split_tetrahedron"):
         for pres in range(8 if big else 3):
             v, f, closed = present(name, pres)
             k = 0
@@ -588,7 +850,7 @@ def work_items(tier):
                           % ("pair of faces" if big else "edge-adjacent pair of faces", name))
 
     # ---- subdivide: all faces (face_index None and the full index list) and face subsets
-    for name in LIB:
+    for name in BASE:
         for pres in range(4 if big else 2):
             n = len(LIB[name][1])
             for api in ("mesh", "func"):
@@ -642,6 +904,176 @@ def work_items(tier):
                 if it_ == 2 and len(LIB[name][1]) > 12 and not big:
                     continue
                 add(op="loop", name=name, pres=pres, iterations=it_)
+
+    # =================================================================== audit families
+    mul = 8 if big else 1
+
+    # ---- fix: larger / higher genus / more bodies, histories before the call, unreferenced vertices
+    FH = ("", "invert", "normals+invert", "warm_up+invert", "fix_first")
+    for name, cnt in (("cube_refined", 40), ("ring_genus1", 24), ("double_ring_genus2", 10), ("three_bodies", 60),
+                      ("nested_cubes", 40)):
+        n = len(LIB[name][1])
+        single = name in ("cube_refined", "ring_genus1", "double_ring_genus2")
+        for k, flips in enumerate(sampled(n, cnt * mul)):
+            apis = FIX_APIS if single else ("fix_normals_auto", "fix_normals_multibody", "fix_winding")
+            add(op="fix", fam="fix_large", name=name, pres=k % 5, flips=flips, style=k, api=apis[k % len(apis)],
+                warm=(k // 3) % 2, fh=FH[k % 5] if k % 2 else "", unref=int(k % 7 == 3))
+    for name in ("three_bodies", "nested_cubes"):
+        for pres in range(4 if big else 2):
+            v, f, _ = present(name, pres)
+            comps = body_face_sets(f)
+            for pick in subsets(len(comps)):
+                flips = sorted(x for c in pick for x in comps[c])
+                for k, api in enumerate(("fix_inversion_multibody", "fix_normals_auto", "fix_normals_multibody")):
+                    add(op="fix", fam="fix_large", name=name, pres=pres, flips=flips, style=pres + k, api=api,
+                        warm=(pres + k) % 2, fh=FH[(pres + k + len(pick)) % 5], unref=0)
+    for name, cnt in (("octahedron", 40), ("cube", 60), ("tet_and_cube", 60), ("torus3x3", 60)):
+        n = len(LIB[name][1])
+        for k, flips in enumerate(sampled(n, cnt * mul)):
+            add(op="fix", fam="fix_history", name=name, pres=k % 5, flips=flips, style=k,
+                api=("fix_normals_auto", "fix_normals_multibody")[k % 2], warm=(k // 2) % 2, fh=FH[1 + k % 4],
+                unref=int(k % 3 == 0))
+
+    # whole single bodies inside out (or untouched) after every history: the inversion test alone, on a mesh
+    # whose cache was filled before invert()
+    for name in ("octahedron", "cube", "torus3x3", "cube_refined", "ring_genus1"):
+        n = len(LIB[name][1])
+        for pres in range(4 if big else 2):
+            for j, flips in enumerate(([], list(range(n)))):
+                for k, fh in enumerate(FH[1:]):
+                    add(op="fix", fam="fix_history_whole", name=name, pres=pres, flips=flips, style=pres + k,
+                        api=("fix_normals_auto", "fix_normals_single", "fix_inversion_single",
+                             "fix_normals_multibody")[(pres + j + k) % 4], warm=0, fh=fh, unref=0)
+
+    # ---- fill: any number of faces removed (what is left stays a manifold); fans around a vertex
+    FCFG = ("", "facecolor", "unref", "twice", "")
+    for name, cnt in (("octahedron", 30), ("cube", 60), ("tet_and_cube", 60), ("torus3x3", 80), ("sheet4x4", 60),
+                      ("cube_refined", 60), ("three_bodies", 60), ("edge_split_tetrahedron", 20)):
+        for pres in range(2):
+            v, f, closed = present(name, pres)
+            n = len(f)
+            cands = []
+            for x in range(len(v)):                                   # the whole fan of a vertex
+                cands.append([k for k, t in enumerate(f) if x in t])
+            for _ in range(cnt * mul * 3):
+                k = 3 + rs.randint(4)
+                if rs.rand() < 0.5:                                    # a patch grown from a face, else scattered
+                    patch = [int(rs.randint(n))]
+                    while len(patch) < k:
+                        nb = [b for b in range(n) if b not in patch and any(len(set(f[a]) & set(f[b])) == 2 for a in patch)]
+                        if not nb:
+                            break
+                        patch.append(nb[rs.randint(len(nb))])
+                    cands.append(sorted(patch))
+                elif rs.rand() < 0.5:
+                    cands.append(sorted(int(x) for x in rs.choice(n, size=min(k, n), replace=False)))
+                else:
+                    # several separate triangle / quad holes: faces (or edge-adjacent pairs) without a common vertex
+                    got, used = [], set()
+                    for a in rs.permutation(n):
+                        grp = [int(a)]
+                        if rs.rand() < 0.4:
+                            nb = [b for b in range(n) if b != a and len(set(f[a]) & set(f[b])) == 2]
+                            if nb:
+                                grp.append(nb[rs.randint(len(nb))])
+                        vs = {x for g in grp for x in f[g]}
+                        if not (vs & used):
+                            got += grp
+                            used |= vs
+                        if len(got) >= k:
+                            break
+                    cands.append(sorted(got))
+            seen, kept = set(), 0
+            for removed in cands:
+                if kept >= cnt * mul // 2 + len(v):
+                    break
+                if len(removed) < 3 or tuple(removed) in seen or n - len(removed) < 3:
+                    continue
+                seen.add(tuple(removed))
+                if manifold_after_removal(f, removed):
+                    add(op="fill", fam="fill_many", name=name, pres=pres, removed=removed, warm=kept % 2,
+                        cfg=FCFG[kept % 5], hist=(1 + kept % len(HISTORIES)) if kept % 5 == 4 else 0)
+                    kept += 1
+    # options on the one- and two-face holes
+    for name in ("octahedron", "cube", "tet_and_cube", "torus3x3", "edge_split_tetrahedron"):
+        v, f, closed = present(name, 1)
+        k = 0
+        for removed in [[a] for a in range(len(f))] + [list(p) for p in adjacent_pairs(f)]:
+            if manifold_after_removal(f, removed):
+                add(op="fill", fam="fill_options", name=name, pres=1, removed=removed, warm=k % 2, cfg=FCFG[1 + k % 3])
+                k += 1
+
+    # ---- fill_holes() then fix_normals(): faces removed AND survivors re-wound
+    for name in ("octahedron", "cube", "tet_and_cube", "torus3x3", "three_bodies", "edge_split_tetrahedron"):
+        for pres in range(4 if big else 1):
+            v, f, closed = present(name, pres)
+            k = 0
+            for removed in [[a] for a in range(len(f))] + [list(p) for p in adjacent_pairs(f)]:
+                if not manifold_after_removal(f, removed):
+                    continue
+                for rep_ in range(3 if big else 1):
+                    nrest = len(f) - len(removed)
+                    p = (0.5, 0.2, 0.9)[(k + rep_) % 3]
+                    flips = [int(x) for x in np.nonzero(rs.rand(nrest) < p)[0]]
+                    add(op="fillfix", fam="fillfix", name=name, pres=pres, removed=removed, flips=flips, style=k,
+                        warm=k % 2)
+                k += 1
+
+    # ---- subdivide: every container / dtype form of face_index, faces, vertices; visuals and attributes;
+    #      return_index; a second round on the real result; unreferenced vertices
+    FORMS = ("bool", "boollist", "unsorted", "repeated", "int32", "uint8", "tuple", "negative")
+    for name, cnt in (("tetrahedron", 6), ("octahedron", 8), ("cube", 10), ("sheet3x3", 8), ("tet_and_cube", 6)):
+        n = len(LIB[name][1])
+        for k in range(cnt * mul):
+            sel = [int(x) for x in np.nonzero(rs.rand(n) < (0.5, 0.25, 0.8)[k % 3])[0]]
+            if k == 1:
+                sel = []
+            if k == 2:
+                sel = list(range(n))
+            for j, form in enumerate(FORMS):
+                add(op="subdivide", fam="sub_forms", name=name, pres=(k + j) % 3, sel=sel, depth=1,
+                    api=("mesh", "func")[(k + j) % 2], warm=0, form=form)
+            for j, (fdt, vdt) in enumerate((("int32", ""), ("uint32", ""), ("uint64", ""), ("int16", ""),
+                                            ("", "float32"), ("", "int64"), ("int32", "float32"))):
+                add(op="subdivide", fam="sub_dtypes", name=name, pres=(k + j) % 3, sel=sel if j % 2 else "all_none",
+                    depth=1, api="func", warm=0, fdt=fdt, vdt=vdt)
+            for j, cfg in enumerate(("uv", "vattr2d", "vattr1d", "unref")):
+                add(op="subdivide", fam="sub_" + cfg, name=name, pres=(k + j) % 3, sel=sel if (k + j) % 2 else "all_none",
+                    depth=1, api="mesh", warm=(k // 2) % 2, cfg=cfg)
+            add(op="subdivide", fam="sub_unref", name=name, pres=k % 3, sel=sel, depth=1, api="func", warm=0, cfg="unref")
+            add(op="subdivide", fam="sub_ri", name=name, pres=k % 3, sel=sel, depth=1, api="func", warm=0, ri=1)
+            add(op="subdivide", fam="sub_ri", name=name, pres=(k + 1) % 3, sel="all_none", depth=1, api="func", warm=0, ri=1,
+                form="", fdt=("", "int32")[k % 2])
+            if name != "tet_and_cube" or big:
+                add(op="subdivide", fam="sub_chain", name=name, pres=k % 3, sel="all_none" if k % 2 else [0], depth=1,
+                    api="mesh", warm=k % 2, cfg="chain")
+
+    # ---- subdivide_to_size: function entry points / dtypes / uv path / scalar kinds of the bound / presentations
+    ENTRIES = ("func", "func_lists", "func_f32_i32", "func_intverts_u32", "mesh_uv", "mesh")
+    for name in ("tetrahedron", "skew_tetrahedron", "pythagorean_tetrahedron", "cube", "sheet3x3", "torus3x3"):
+        k = 0
+        for (n, d) in BOUNDS:
+            if name == "torus3x3" and n / d < 2:
+                continue
+            for mi in MAX_ITERS:
+                k += 1
+                if not big and (k + len(name)) % 3:
+                    continue
+                add(op="tosize", fam="tosize_entries", name=name, pres=k % 3, me_n=n, me_d=d, max_iter=mi, ri=k % 2,
+                    max_pieces=pieces, entry=ENTRIES[(k // 3 if not big else k) % len(ENTRIES)], me_int=k % 4)
+
+    # the boundary case (longest edge EQUAL to the bound after three halvings) through every entry point
+    for k, entry in enumerate(ENTRIES):
+        for mi in (2, 3, 4):
+            add(op="tosize", fam="tosize_entries", name="pythagorean_tetrahedron", pres=k % 3, me_n=5, me_d=2, max_iter=mi,
+                ri=(k + mi) % 2, max_pieces=pieces, entry=entry, me_int=0)
+
+    # ---- loop subdivision: unreferenced vertices, three bodies, larger surfaces
+    for name in ("tetrahedron", "cube", "sheet3x3", "tet_and_cube"):
+        add(op="loop", fam="loop_unref", name=name, pres=1, iterations=1, cfg="unref")
+    for name in ("three_bodies", "nested_cubes", "ring_genus1", "cube_refined"):
+        for pres in range(2 if big else 1):
+            add(op="loop", fam="loop_large", name=name, pres=pres, iterations=1)
     return items, exhaustive
 
 
@@ -691,6 +1123,7 @@ def stats_of(cases):
         op = c["op"]
         add("records_" + op)
         add("%s:%s" % (op, c["name"]))
+        add("family:" + c["item"].get("fam", "base"))
         if c["exc"]:
             add("raised")
             continue
@@ -701,6 +1134,13 @@ def stats_of(cases):
             add("fix_result_differs_from_pre", c["f1"] != c["f0"])
             add("fix_cache_warm", c["item"]["warm"])
             add("fix_one_body_below_merge_tolerance", "tiny_k" in c)
+            add("fix_history:" + c["fh"], bool(c["fh"]))
+            add("fix_with_history", bool(c["fh"]))
+            add("fix_unreferenced_vertices", bool(c["item"].get("unref")))
+            add("fix_50_or_more_faces", len(c["f0"]) >= 50)
+            add("fix_genus_two", c["name"] == "double_ring_genus2")
+            add("fix_three_bodies_or_nested", c["name"] in ("three_bodies", "nested_cubes"))
+            add("fix_triangles_observed", len(c["rep"]["tri"]) > 1)
         elif op == "fill":
             add("fill_triangle_hole", len(c["removed"]) == 1)
             add("fill_two_faces_removed", len(c["removed"]) == 2)
@@ -708,6 +1148,14 @@ def stats_of(cases):
             add("fill_returned_true", c["ret"])
             add("fill_after_invert_history", c["sgn"] == -1)
             add("fill_after_read_then_invert", c["sgn"] == -1 and c["hist"] != "invert")
+            add("fill_three_or_more_removed", len(c["removed"]) >= 3)
+            add("fill_many_some_faces_added", len(c["removed"]) >= 3 and len(c["f1"]) > len(c["f0"]))
+            add("fill_many_not_closed", len(c["removed"]) >= 3 and not c["ret"])
+            add("fill_cfg:" + c["cfg"], bool(c["cfg"]))
+            add("fill_edge_split_tetrahedron", c["name"] == "edge_split_tetrahedron")
+        elif op == "fillfix":
+            add("fillfix_survivors_rewound", bool(c["flips"]))
+            add("fillfix_faces_added", len(c["f1"]) > len(c["f0"]))
         elif op == "subdivide":
             add("subdivide_all_faces", len(c["sel"]) == len(c["f0"]))
             add("subdivide_proper_subset", 0 < len(c["sel"]) < len(c["f0"]))
@@ -715,6 +1163,15 @@ def stats_of(cases):
             add("subdivide_second_round", c["item"]["depth"] == 2)
             add("subdivide_api:" + c["api"])
             add("subdivide_coincident_vertices", c["name"] in COINCIDENT)
+            add("subdivide_form:" + c["form"], bool(c["form"]))
+            add("subdivide_face_index_forms", bool(c["form"]))
+            add("subdivide_dtypes", bool(c["fdt"] or c["vdt"]))
+            add("subdivide_fdt:" + c["fdt"], bool(c["fdt"]))
+            add("subdivide_cfg:" + c["cfg"], bool(c["cfg"]))
+            add("subdivide_visual_or_attributes", c["cfg"] in ("uv", "vattr2d", "vattr1d"))
+            add("subdivide_return_index", c["ri"])
+            add("subdivide_chained_on_real_result", c["cfg"] == "chain" and c["pre_ok"])
+            add("subdivide_unreferenced_vertices", c["cfg"] == "unref")
         elif op == "tosize":
             add("tosize_refused", c["refused"])
             add("tosize_returned", not c["refused"])
@@ -722,14 +1179,19 @@ def stats_of(cases):
             add("tosize_refined", (not c["refused"]) and len(c["f1"]) > len(c["f0"]))
             add("tosize_halved_coordinates", c["den"] > 1)
             add("tosize_pieces", len(c["f1"]))
+            add("tosize_entry:" + c["entry"])
+            add("tosize_function_entry", c["entry"].startswith("func"))
+            add("tosize_function_entry_refined", c["entry"].startswith("func") and len(c["f1"]) > len(c["f0"]))
+            add("tosize_presented", c["pres"] > 0)
         elif op == "loop":
             add("loop_faces_out", len(c["f1"]))
+            add("loop_unreferenced_vertices", c["item"].get("cfg") == "unref")
     return st
 
 
 def brief(c):
     keep = ("op", "name", "pres", "api", "flips", "tiny_k", "removed", "hist", "sel", "me_n", "me_d", "max_iter", "ri", "refused",
-            "ret", "iterations", "den", "exc", "off")
+            "ret", "iterations", "den", "exc", "off", "fh", "cfg", "form", "fdt", "vdt", "entry", "pre_ok")
     out = {k: c[k] for k in keep if k in c}
     out["v0"], out["f0"] = c["v0"], c["f0"]
     if len(c["f1"]) <= 24:
@@ -767,6 +1229,7 @@ def main(argv):
     os.environ.setdefault("JAVA_TOOL_OPTIONS", "-Xmx2g")       # 16 JVMs: keep every heap bounded
     st, by_dev, pick = {}, {}, {}
     states, wall, nrec, nrej, nskip, reported = 0, 0.0, 0, 0, 0, {}
+    nskip_hist = 0
     first = None
     for lo in range(0, len(items), ROUND):
         part = items[lo:lo + ROUND]
@@ -776,7 +1239,8 @@ def main(argv):
         got = sorted((c for r in res for c in r), key=lambda c: c["id"])
         if len(got) != len(part) or any(c["id"] != lo + k for k, c in enumerate(got)):
             raise MachineryError("records lost")
-        nskip += sum(1 for c in got if "skipped" in c)
+        nskip += sum(1 for c in got if "skipped" in c and c["op"] == "tosize")
+        nskip_hist += sum(1 for c in got if "skipped" in c and c["op"] != "tosize")
         cases = [c for c in got if "skipped" not in c]
         byid = {c["id"]: c for c in cases}
         # the validator's shards take every 16th record: interleave the large ones
@@ -813,7 +1277,22 @@ def main(argv):
                 "subdivide_proper_subset": 200, "tosize_refused": 20, "tosize_refined": 40,
                 "tosize_returned_with_index": 20, "tosize_halved_coordinates": 5, "records_loop": 8,
                 "fix_one_body_below_merge_tolerance": 50, "fill_after_read_then_invert": 60,
-                "subdivide_coincident_vertices": 60}
+                "subdivide_coincident_vertices": 60,
+                # audit families
+                "family:fix_large": 200, "family:fix_history_whole": 60, "fix_50_or_more_faces": 30, "fix_genus_two": 8, "fix_three_bodies_or_nested": 100,
+                "fix_with_history": 200, "fix_history:invert": 40, "fix_history:normals+invert": 40,
+                "fix_history:warm_up+invert": 40, "fix_history:fix_first": 40, "fix_unreferenced_vertices": 60,
+                "fix_triangles_observed": 1500,
+                "fill_three_or_more_removed": 300, "fill_many_some_faces_added": 60, "fill_many_not_closed": 60,
+                "fill_cfg:facecolor": 80, "fill_cfg:unref": 80, "fill_cfg:twice": 80, "fill_edge_split_tetrahedron": 20,
+                "family:fillfix": 150, "fillfix_survivors_rewound": 120, "fillfix_faces_added": 100,
+                "family:sub_forms": 250, "family:sub_dtypes": 200, "family:sub_uv": 30, "family:sub_vattr2d": 30,
+                "family:sub_vattr1d": 30, "family:sub_ri": 60, "family:sub_chain": 25, "family:sub_unref": 60,
+                "family:tosize_entries": 80, "tosize_function_entry": 40, "tosize_function_entry_refined": 15,
+                "family:loop_unref": 4, "family:loop_large": 4}
+        if nskip_hist:
+            # a first fix_normals() changed the triangle set although no record was rejected
+            raise MachineryError("history records skipped without any rejected record: %d" % nskip_hist)
         low = {k: st.get(k, 0) for k, n in need.items() if st.get(k, 0) < n}
         if low:
             raise MachineryError("enumeration nearly empty: %s" % low)
@@ -829,6 +1308,7 @@ def main(argv):
         "rejected_by_deviation": by_dev,
         "reported_violations_capped_per_clause_and_deviation": REPORT_CAP,
         "to_size_results_too_large_to_validate": nskip,
+        "audit_families": {k[7:]: v for k, v in sorted(st.items()) if k.startswith("family:")},
         "tlc_wall_s": round(wall, 1),
         "samples": list(pick.values()) or [brief(first)],
     }
